@@ -477,7 +477,89 @@ def targets(ctx):
         finally:
             c.cleanup()
 
+    # ---- fixed reference shapes (vf/props/_shapes.py): a field named like the import alias of its type's package, nested
+    # types whose own name is a Python keyword, a foreign type called like the holder's synthetic map-entry type, import
+    # public, packages that import each other - judged by marker against protoc's descriptors (the C03 validation:
+    # every field's annotation resolves to the class carrying the marker of the type the descriptor names) and at run
+    # time (the class the runtime decodes the field with; a value sent through the reference comes back in that class)
+    REF_SHAPES = ("alias_child.proto", "alias_parent.proto", "nested_keywords.proto", "entry_store.proto", "entry_holder.proto", "pub_c.proto", "pub_b.proto", "pub_a.proto",
+                  "mutual_child.proto", "mutual_parent.proto", "mutual_child2.proto", "only_enums.proto", "uses_only_enums.proto", "only_plain.proto", "only_msgref.proto")
+
+    def shape_cases():
+        for opts in ((), ("pydantic_dataclasses",)):
+            for order in (None, "reversed"):
+                yield {"shapes": "reference_shapes", "opts": list(opts), "order": order}
+        # under pydantic the alias-named field is a known finding: probed on its own
+        yield {"shapes": "probe_alias_named_field", "opts": ["pydantic_dataclasses"], "order": None}
+
+    def shape_ev(case):
+        import betterproto
+
+        from ..schema_info import Schema
+        from ..values import BPInfo
+        from ._shapes import SINGLE_CONSTRUCT
+        from .c03 import validate as validate_by_marker
+
+        pyd = "pydantic_dataclasses" in case["opts"]
+        names = [k for k in REF_SHAPES if not (pyd and k.startswith("alias_"))] if case["shapes"] == "reference_shapes" else [k for k in REF_SHAPES if k.startswith("alias_")]
+        c = gen.compile_files({k: SINGLE_CONSTRUCT[k] for k in names}, opts=tuple(case["opts"]), tag="c13shp_", order=case.get("order"))
+        try:
+            if c.protoc_rejected:
+                raise RuntimeError(f"protoc rejects the C13 shapes: {c.stderr[:300]}")
+            found = [(cl, w, d) for cl, w, d in validate_by_marker(c) if not (pyd and cl in ("field_cardinality", "field_optional_flag") and w.startswith("oneof"))]
+            n = 0
+            if not c.import_errors and c.rc == 0:
+                schema = Schema(c.fds)
+                by_marker = {}
+                for mod in c.modules.values():
+                    msgs, enums = gen.classes_of(mod)
+                    by_marker.update({gen.marker_of_message(x): x for x in msgs if gen.marker_of_message(x)})
+                    by_marker.update({gen.marker_of_enum(x): x for x in enums if gen.marker_of_enum(x)})
+                by_full = {}
+                for full, mi in schema.messages.items():
+                    mk = [f.number for f in mi.fields if f.number > 20000]
+                    if mk and mk[0] in by_marker:
+                        by_full[full] = by_marker[mk[0]]
+                for full, cls in by_full.items():
+                    mi = schema.msg(full)
+                    try:
+                        info = BPInfo.of(cls)
+                    except Exception:  # noqa: BLE001 - reported by the validation above
+                        continue
+                    for fi in mi.fields:
+                        if fi.card not in ("single", "optional", "repeated") or fi.type != "message" or fi.wkt is not None or fi.msg not in by_full:
+                            continue
+                        n += 1
+                        want = by_full[fi.msg]
+                        name = info.pyname(fi)
+                        try:
+                            got = cls._betterproto.cls_by_field[name]
+                            if got is not want:
+                                found.append(("runtime_decodes_reference_with_wrong_class", f"{fi.kind}", f"{full}.{fi.name}: {got!r}, want {want!r}"))
+                                continue
+                            sub = want().parse(b"\xd0\x0f\x07")  # an unknown varint record: present and distinguishable
+                            val = [sub] if fi.card == "repeated" else sub
+                            m2 = cls().parse(bytes(cls(**{name: val})))
+                            back = getattr(m2, name)
+                            back = back[0] if fi.card == "repeated" else back
+                            if type(back) is not want or bytes(back) != bytes(sub):
+                                found.append(("value_through_reference_not_preserved", f"{fi.kind}", f"{full}.{fi.name}: {back!r}"))
+                        except Exception as e:  # noqa: BLE001
+                            found.append(("round_trip_through_reference_raises", f"{fi.kind}|{type(e).__name__}", f"{full}.{fi.name}: {e}"[:300]))
+            seen, fails = set(), []
+            tag = ("shapes" if case["shapes"] == "reference_shapes" else case["shapes"]) + ("/pydantic" if pyd else "") + ("/files_reversed" if case.get("order") else "")
+            for cl, where, d in found:
+                sig = f"{tag}|{cl}|{where}"
+                if sig not in seen:
+                    seen.add(sig)
+                    fails.append(Failure(cl, sig, d))
+            return Eval(fails, weight=max(n, 1), nontrivial_count=n, labels=[tag])
+        finally:
+            c.cleanup()
+
     return [
+        Target("reference_shapes", shape_ev, cases=shape_cases, exhaustive=True, shard_cases=False,
+               rule="fixed shapes: alias-named fields, nested keyword-named types, foreign *Entry types, import public, mutually importing packages x {std, pydantic} x file order"),
         Target("all_packages_at_once", all_ev, cases=all_cases, exhaustive=True, rule="every package refers to every package, in one compilation"),
         Target("ordered_pairs_in_isolation", pair_ev, cases=pair_cases, exhaustive=ctx.thorough,
                rule="ordered pairs of package paths of depth 0-3 over {a,b}; quick = the quarter selected by VERIF_SEED, thorough = all 225 (+ a_b shapes)",
